@@ -171,7 +171,7 @@ def should_succeed(op, expect, before):
     as root, so permissions do not matter): plain final names, parents the kernel resolves, source present / destination absent."""
     def plainname(key):
         _p, nm = split(unhex(op[key]))
-        return nm is not None and nm not in (b".", b"..") and b"/" not in nm and nm != b""
+        return nm is not None and nm not in (b".", b"..") and b"/" not in nm and nm != b"" and len(nm) <= 255   # NAME_MAX
 
     def isdir(p_):
         return (before[p_][1] & 0o170000) == 0o040000
